@@ -83,7 +83,10 @@ vs = Orchestrator(project_root=Path(root), config=cfg).lint_files([Path(root) / 
 c = collections.Counter()
 for v in vs:
     names = tuple(sorted(set(re.findall(r"'([A-Z][A-Z_0-9]+)'", v.message)))) if v.rule_id.startswith("dry") else ()
-    c[json.dumps([v.rule_id, os.path.relpath(str(v.file_path), root), v.line, v.column, names, v.message.replace(root, "<root>")])] += 1
+    msg = v.message.replace(root, "<root>")
+    if v.rule_id.startswith("dry") and names:
+        msg = ""
+    c[json.dumps([v.rule_id, os.path.relpath(str(v.file_path), root), v.line, v.column, names, msg])] += 1
 print(json.dumps(sorted(c.items())))
 '''
 
@@ -202,16 +205,22 @@ def order_history_effects_bounded(ctx):
                 edited = pathlib.Path(root) / files[0]
                 edited.write_text(edited.read_text(encoding="utf-8") + "\n\ndef added():\n    return 1234567\n", encoding="utf-8")
                 second = _key(o.lint_files(targets), root)
-                clear_ignore_parser_cache()
-                fresh = _key(Orchestrator(project_root=pathlib.Path(root), config=copy.deepcopy(cfg)).lint_files(targets), root)
+                # oracle: a FRESH PROCESS on the edited files (a fresh object in this process would share process-level caches)
+                pr = subprocess.run([sys.executable, "-c", _SUBPROCESS, repo, root, json.dumps(cfg),
+                                     json.dumps([os.path.relpath(str(t), root) for t in targets])],
+                                    capture_output=True, text=True, timeout=120, env=dict(os.environ, TMPDIR=private_tmp))
+                if pr.returncode != 0:
+                    raise RuntimeError("sub-process failed: " + pr.stderr[-300:])
+                fresh = sorted((k, v) for k, v in json.loads(pr.stdout.strip().splitlines()[-1]))
+                mine = sorted((json.dumps([k[0], k[1], k[2], k[3], list(k[4]), k[5]]), v) for k, v in second.items())
                 cases += 3
-                if not any(k[1] == "tool" for k in fresh) or not any(k[1] == "late" for k in fresh):
-                    raise RuntimeError("edit scenario too weak: the rewritten scripts carry no violation in a fresh run")
-                if second != fresh:
+                if not any('"tool"' in k for k, _ in fresh) or not any('"late"' in k for k, _ in fresh):
+                    raise RuntimeError("edit scenario too weak: the rewritten scripts carry no violation in a fresh process")
+                if mine != fresh:
                     return bad("files edited between two calls on the same Orchestrator are not judged by their new state",
                                {"edited": ["tool: sh -> python shebang", "late: empty -> python shebang", files[0] + ": function added"],
-                                "same_object_only": sorted(map(str, (second - fresh).keys()))[:6],
-                                "fresh_only": sorted(map(str, (fresh - second).keys()))[:6]})
+                                "same_object_only": [k for k, _ in mine if (k, _) not in fresh][:6],
+                                "fresh_process_only": [k for k, _ in fresh if (k, _) not in mine][:6]})
                 for pth in (script, late):
                     pth.unlink()
                 del o
